@@ -8,7 +8,17 @@ fn any_frame() -> Http2Frame {
     let sid: u32 = kani::any();
     kani::assume(sid <= 3);
     let p: [u8; 6] = kani::any();
-    Http2Frame { frame_type: Http2FrameType::from(ty), stream_id: sid, flags: 0, payload: p.to_vec(), length: 6 }
+    // flags are symbolic: the scheme selects frames by type and stream only (ACK, END_STREAM, reserved bits are irrelevant)
+    Http2Frame { frame_type: Http2FrameType::from(ty), stream_id: sid, flags: kani::any(), payload: p.to_vec(), length: 6 }
+}
+/// symbolic type / stream / flags over a FIXED payload (one id:value pair that names the frame's position):
+/// cheap enough for the quick tier, decides which frame is selected
+fn any_frame_fixed_payload(k: u8) -> Http2Frame {
+    let ty: u8 = kani::any();
+    kani::assume(ty == 0x2 || ty == 0x4 || ty == 0x8 || ty == 0x6);
+    let sid: u32 = kani::any();
+    kani::assume(sid <= 1);
+    Http2Frame { frame_type: Http2FrameType::from(ty), stream_id: sid, flags: kani::any(), payload: vec![0, k, 0, 0, 1, k], length: 6 }
 }
 fn ty(f: &Http2Frame) -> u8 {
     match f.frame_type { Http2FrameType::Priority => 2, Http2FrameType::Settings => 4, Http2FrameType::WindowUpdate => 8, _ => 6 }
@@ -68,6 +78,9 @@ fn c17_window_update_selection() { check_window_update(vec![any_frame(), any_fra
 #[kani::proof]
 #[kani::unwind(8)]
 fn c17_settings_selection() { check_settings(vec![any_frame(), any_frame()]); }
+#[kani::proof]
+#[kani::unwind(8)]
+fn c17_settings_selection_flags() { check_settings(vec![any_frame_fixed_payload(1), any_frame_fixed_payload(2), any_frame_fixed_payload(3)]); }
 #[kani::proof]
 #[kani::unwind(8)]
 fn c17_priority_selection() { check_priority(vec![any_frame(), any_frame()]); }
